@@ -425,6 +425,9 @@ func genC05(seed uint64, idx int) *Plan {
 		// the largest plaintext records
 		p.FragmentLen = []int{16384, 16383, 16381, 16380, 16379, 16000}[(idx/7)%6]
 	}
+	if (p.NoECH || p.Grease) && idx%11 == 5 {
+		p.SNIList = 1 + (idx/11)%3
+	}
 	if p.NoECH && p.NoVersions && idx%3 == 0 {
 		// an old client: no extensions (an empty block, or none at all)
 		p.ExtBlock = []string{"none", "empty"}[(idx/3)%2]
